@@ -17,6 +17,7 @@
 pub assume_specification<'a>[<String as From<&'a str>>::from](s: &str) -> (r: String) ensures r@ == s@;
 pub assume_specification<T>[<Box<T> as From<T>>::from](t: T) -> (r: Box<T>) ensures *r == t;
 pub assume_specification<T: ?Sized, A: core::alloc::Allocator>[<Box<T, A> as AsRef<T>>::as_ref](b: &Box<T, A>) -> (r: &T) ensures r == &**b;
+pub assume_specification<T>[<Option<T> as From<T>>::from](t: T) -> (r: Option<T>) ensures r == Some(t);
 pub assume_specification[<Core as Clone>::clone](t: &Core) -> (r: Core) ensures r == *t;
 pub assume_specification[<State as Clone>::clone](t: &State) -> (r: State) ensures r == *t;
 pub assume_specification[<Name as Clone>::clone](t: &Name) -> (r: Name) ensures r == *t;
